@@ -28,6 +28,8 @@ TInit(cfg) ==
    running |-> [i \in 1..Len(cfg.conns) |-> FALSE],
    ended   |-> [i \in 1..Len(cfg.conns) |-> 0],
    decided |-> [i \in 1..Len(cfg.conns) |-> FALSE],
+   hard |-> [i \in 1..Len(cfg.conns) |-> FALSE],        \* a send on this connection failed with an error reported to the caller
+   hardWire |-> [i \in 1..Len(cfg.conns) |-> -1],       \* ... and this many bytes had been sent by then
    tornBy  |-> [i \in 1..Len(cfg.conns) |-> <<>>],
    done |-> FALSE]
 
@@ -93,6 +95,8 @@ EndConn(s, e, cn) ==
   \cup Cl(~cn.closed \/ cn.bufs_closed, "P13_buffers_released")
   \cup Cl(cn.closed \/ ~cn.accepted \/ cn.in_map, "P13_open_connection_stays_polled")
   \cup Cl(~(quiet /\ cn.accepted /\ ~s.cfg.conns[i].faulty /\ cn.client_done /\ s.cfg.infinite) \/ cn.closed \/ n = s.cfg.conns[i].ncomplete, "P13_other_connections_undisturbed")
+  \cup Cl(~(quiet /\ s.hard[i]) \/ cn.closed, "P13_connection_with_a_send_error_is_torn_down")
+  \* (the code flushes once more before it closes: what is sent after the error is not constrained)
   \* ---- C19
   \cup Cl(\A j \in 1..(n + 1) : InterimsBefore(cn.resp, j, 1, 0) <= 1, "P19_at_most_one_interim_per_request")
   \cup Cl(\A j \in 1..(n + 1) : InterimsBefore(cn.resp, j, 1, 0) = 0 \/
@@ -141,7 +145,8 @@ TUpd(s, e) ==
          [s EXCEPT !.decided[ConnIdx(e.c)] = TRUE]
     \* a send error reported to the caller is a client fault: from here on the connection is to be closed (C11)
     [] e.k = "fault" /\ e.hard /\ ConnIdx(e.c) \in 1..Len(s.cfg.conns) ->
-         [s EXCEPT !.decided[ConnIdx(e.c)] = TRUE]
+         [s EXCEPT !.decided[ConnIdx(e.c)] = TRUE, !.hard[ConnIdx(e.c)] = TRUE,
+                   !.hardWire[ConnIdx(e.c)] = IF @ = -1 THEN e.wire ELSE @]
     [] e.k = "torn" /\ ConnIdx(e.c) \in 1..Len(s.cfg.conns) ->
          [s EXCEPT !.tornBy[ConnIdx(e.c)] = Append(@, e.what)]
     [] e.k = "end" -> [s EXCEPT !.done = TRUE]
